@@ -146,6 +146,28 @@ PROPS = {
     },
 }
 
+
+
+def world(quick=400, thorough=1500):
+    return {"engine": "world", "args": {},
+            "quick": {"cases": quick, "max-ops": 40, "conc-rounds": 4, "conc-threads": 6, "conc-ops": 2000},
+            "thorough": {"cases": thorough, "max-ops": 400, "conc-rounds": 20, "conc-threads": 12, "conc-ops": 20000},
+            "search": {"cases": 3000, "max-ops": 60, "conc-rounds": 8, "conc-threads": 8, "conc-ops": 5000}}
+
+
+PROPS["C08"] = {
+    "statement": "C08.every_history / step_preserves_inv (each cell is free, shared by exactly its n live shared guards, or exclusive with exactly one live guard, after every legal history), C08.outcome_spec (None iff absent, borrow panic iff an incompatible guard is alive, a guard otherwise), C08.panic_frame (+ unwinding of composite fetches), C08.drop_exact",
+    "engines": [world()],
+    "aspects": ["outcome", "state"],
+    "assumptions": [CELL + "; each cell operation (try_borrow, borrow_mut, guard drop) is one atomic step, so a many-thread history is treated as an interleaving of the modelled operations (linearizability of AtomicRefCell is assumed, not proved; the stress part of the engine only checks that no two incompatible guards ever coexist)", TYPES],
+}
+PROPS["C09"] = {
+    "statement": "C09.refines_state / refines_out (every operation commutes with abs : World -> (ResId -> Option Token) and answers what the map answers), C09.typed_linear_invariant (type tag = key type; conservation of values), C09.mismatch_panics, C09.linear / dropped_exactly_once",
+    "engines": [world()],
+    "aspects": ["outcome", "state", "ghost"],
+    "assumptions": [TYPES, "the unchecked downcasts (Fetch::deref, get_mut, remove) are modelled as 'type tag equals key type => the cast is right'"],
+}
+
 TEXT = {}
 
 _PENDING = "check under construction in this round (model and engine designed in DESIGN.md §5; not yet registered)"
